@@ -42,6 +42,32 @@ ELEM_CLONES = re.compile(r"^<serde_json::Value as std::clone::Clone>::clone$|to_
 HARMLESS = {"len", "capacity", "reserve", "reserve_exact", "is_empty", "shrink_to_fit", "as_slice", "iter", "deref", "as_ptr", "deref_mut", "as_mut_slice"}
 
 
+def place(e):
+    """The place an expression denotes: references, reborrows and transparent views peeled at every level of a field
+    path (`&mut (*self).members` and `self.members` are the same place)."""
+    e = strip_refs(e)
+    if e[0] == "field" and e[1][0] != "downcast":
+        return ("field", place(e[1]), e[2])
+    return e
+
+
+def place_root(pl):
+    """The owner of a place: what is left when the field path is peeled off."""
+    while pl[0] == "field" and pl[1][0] != "downcast":
+        pl = pl[1]
+    return pl
+
+
+def place_rebase(pl, prefix, new):
+    """`pl` with its prefix `prefix` replaced by `new`, or None when `prefix` is not a prefix of `pl`."""
+    if pl == prefix:
+        return new
+    if pl[0] == "field" and pl[1][0] != "downcast":
+        b = place_rebase(pl[1], prefix, new)
+        return None if b is None else ("field", b, pl[2])
+    return None
+
+
 class Reader:
     def __init__(self, facts, body, operand_param, kind=None, value_adt=VALUE):
         self.facts = facts
@@ -53,6 +79,7 @@ class Reader:
         self.nsym = 0
         self.notes = []
         self.depth = 0
+        self.reading = []
 
     # ---- values ---------------------------------------------------------------------------------------------------
     def ident(self, e):
@@ -154,13 +181,15 @@ class Reader:
         return None
 
     def paths_of(self, body, env):
-        if self.depth > 6:
-            return None
+        if self.depth > 6 or body.key in self.reading:
+            return None         # a helper that is read while it is being read: recursion is not read (the caller reports it)
         self.depth += 1
+        self.reading.append(body.key)
         try:
             w = pathsum.summarize(body, known=self.known, env=env, max_paths=800)
         finally:
             self.depth -= 1
+            self.reading.pop()
         if w.overflow or not w.paths:
             return None
         return w
@@ -322,7 +351,10 @@ class Reader:
         return self.fold_loops(body, w, acc, returns_acc)
 
     def _mentions(self, e, acc):
-        return expr_mentions(e, lambda y: y == acc)
+        """Does the expression mention the accumulator or the object that owns it (the accumulator may be a field of a
+        private struct: `acc` is a place, its owner is what helpers are handed)."""
+        root = place_root(acc)
+        return expr_mentions(e, lambda y: y == acc or y == root)
 
     def event_items(self, body, ev, acc):
         c, args, bi = ev[1], ev[2], ev[3]
@@ -330,7 +362,7 @@ class Reader:
             return [("unknown", "indirect call with the result")] if any(self._mentions(a, acc) for a in args) else []
         path = c["path"]
         last = path.rsplit("::", 1)[-1]
-        recv = strip_refs(args[0]) if args else None
+        recv = place(args[0]) if args else None
         if recv is not None and recv == acc and not c.get("local"):
             if last == "push" and len(args) == 2:
                 return [("one", self.ident(args[1]))]
@@ -350,11 +382,13 @@ class Reader:
             if c.get("local"):
                 fb = self.facts.body(c.get("key"))
                 if fb is not None:
-                    hit = [i for i, a in enumerate(args) if strip_refs(a) == acc]
+                    # the helper is handed the accumulator, or the object that owns it (any prefix of its place)
+                    a_ = self.fresh("acc")
+                    hit = [(i, place_rebase(acc, place(a), a_)) for i, a in enumerate(args)]
+                    hit = [(i, pl) for (i, pl) in hit if pl is not None]
                     if len(hit) == 1:
-                        a_ = self.fresh("acc")
-                        env = dict((1 + i, (a_ if i == hit[0] else a)) for i, a in enumerate(args))
-                        alts = self.effects(fb, env, a_)
+                        env = dict((1 + i, (a_ if i == hit[0][0] else a)) for i, a in enumerate(args))
+                        alts = self.effects(fb, env, hit[0][1])
                         return [alts[0]] if len(alts) == 1 else [("unknown", "helper %s appends different things" % c.get("key"))]
             if last in HARMLESS or last in ("drop",):
                 return []
@@ -486,18 +520,59 @@ def read_vector(facts, body, operand_param, kind=None):
     out = []
     complete = [p for p in w.paths if not p.truncated]
     accs = []
+
+    def unwrap(r, depth=0):
+        """The vector inside `Ok(Value::Array(..))`, through private helpers that wrap it up (`acc.into_value()`)."""
+        r = strip_refs(r)
+        if depth < 6 and r[0] == "agg" and r[1].get("variant") in ("Ok", "Array") and len(r[2]) == 1:
+            return unwrap(r[2][0], depth + 1)
+        if depth < 6 and r[0] == "call" and r[1] and r[1].get("local") and R.facts.body(r[1].get("key")) is not None:
+            res = R.call_results(r, r[2])
+            if res:
+                inner = [strip_refs(x) for x in res]
+                if all(x[0] == "agg" and x[1].get("variant") in ("Ok", "Array") and len(x[2]) == 1 for x in inner):
+                    return [v for x in inner for v in unwrap(x, depth + 1)]
+        return [r]
+
+    def fresh_empty(pl):
+        """Is the place an accumulator that starts out empty: an empty-vector constructor, or a field path into an
+        object made by a private constructor all of whose results hold an empty vector there."""
+        root = place_root(pl)
+        if not (root[0] == "call" and root[1]):
+            return False
+        if EMPTY_CTORS.search(root[1].get("path", "")):
+            return pl == root
+        if not root[1].get("local") or pl == root:
+            return False
+        res = R.call_results(root, root[2])
+        if not res:
+            return False
+        for x in res:
+            v = place_rebase(pl, root, strip_refs(x))
+            # project the field path out of the aggregate the constructor returns
+            def proj(e):
+                if e[0] == "field" and e[1][0] != "downcast":
+                    b = proj(e[1])
+                    b = strip_refs(b) if b is not None else None
+                    if b is not None and b[0] == "agg" and b[1].get("agg") == "Adt" and e[2] < len(b[2]):
+                        return b[2][e[2]]
+                    return None
+                return e
+            v = proj(v)
+            if v is None or R.norm(R.stream(v)) != ("empty",):
+                return False
+        return True
+
     for p in complete:
-        r = strip_refs(p.result)
-        for _ in range(3):
-            if r[0] == "agg" and r[1].get("variant") in ("Ok", "Array") and len(r[2]) == 1:
-                r = strip_refs(r[2][0])
-        if r[0] == "call" and r[1] and EMPTY_CTORS.search(r[1].get("path", "")):
-            if r not in accs:
-                accs.append(r)
-        else:
-            t = R.norm(R.stream(r))
-            if t not in out:
-                out.append(t)
+        for r in unwrap(p.result):
+            pl = place(r)
+            if fresh_empty(pl):
+                if pl not in accs:
+                    accs.append(pl)
+            else:
+                t = R.norm(R.stream(r))
+                if t not in out:
+                    out.append(t)
     for acc in accs:
         for t in R.fold_loops(body, w, acc):
             if t not in out:
